@@ -117,6 +117,11 @@ class AddrMap(object):
         if params[0] in self.addr:
             self.addr[params[0]].update(*params)
 
+        elif params[1] == '<error>':
+            # a failed lookup for a name we hold no mapping for: there
+            # is nothing to drop and nothing to tell the listeners
+            return
+
         else:
             a = Addr(self)
             # add both name and IP address
